@@ -398,7 +398,15 @@ func (c *Client) Upgrade() error {
 	ctx, cancel := context.WithTimeout(context.Background(), 60*time.Second)
 	defer cancel()
 	// Pause polling first: the in-flight poll still delivers its packets, no new poll is started.
-	close(c.pollStop)
+	c.mu.Lock()
+	select {
+	case <-c.pollStop:
+		c.mu.Unlock()
+		return fmt.Errorf("rawpeer: connection already closed")
+	default:
+		close(c.pollStop)
+	}
+	c.mu.Unlock()
 	conn, _, err := websocket.Dial(ctx, wsURL(c.url("websocket", "")), &websocket.DialOptions{CompressionMode: websocket.CompressionDisabled})
 	if err != nil {
 		return err
@@ -440,11 +448,13 @@ func (c *Client) Close() {
 	if tr == "websocket" && ws != nil {
 		ws.Close(websocket.StatusNormalClosure, "")
 	} else if c.pollStop != nil {
+		c.mu.Lock()
 		select {
 		case <-c.pollStop:
 		default:
 			close(c.pollStop)
 		}
+		c.mu.Unlock()
 		// Tell the server (best effort).
 		c.PostRaw([]byte("1"), false)
 	}
@@ -461,11 +471,13 @@ func (c *Client) Abort() {
 		ws.CloseNow()
 	}
 	if c.pollStop != nil {
+		c.mu.Lock()
 		select {
 		case <-c.pollStop:
 		default:
 			close(c.pollStop)
 		}
+		c.mu.Unlock()
 	}
 	c.markClosed("aborted locally")
 	c.http.CloseIdleConnections()
